@@ -401,7 +401,7 @@ func (c *compiler) createListEquals(listType *ddpIrListType, declarationOnly boo
 		// return memcmp(list1->arr, list2->arr, sizeof(T) * list1->len) == 0;
 		size := c.cbb.NewMul(c.sizeof(listType.elementType.IrType()), list1_len)
 		memcmp := c.memcmp(c.loadStructField(list1, list_arr_field_index), c.loadStructField(list2, list_arr_field_index), size)
-		c.cbb.NewRet(c.cbb.NewICmp(enum.IPredEQ, memcmp, zero))
+		c.cbb.NewRet(c.cbb.NewICmp(enum.IPredEQ, memcmp, newIntT(i32, 0)))
 	} else { // non-primitive types need to be seperately compared
 		/*
 			for (int i = 0; i < list1->len; i++) {
